@@ -11,7 +11,14 @@ Fragment predicates (executable, Diff/Exact13.lean): `goodT S A` — a tree of l
 lists and leaf-lists in libyang's sibling order; `exactDiff S A D` — `D` is an exact diff for `A` (what
 `lyd_diff_siblings(…, LYD_DIFF_DEFAULTS)` produces on the fragment; checked on every generated pair by the check module).
 `KeyOrder S` (Diff/Lemmas13Ord.lean) is the hypothesis that the `sort` callbacks order list / leaf-list instances strictly and
-totally; `keyOrder_of_stringLL` discharges it for schemas whose system-ordered nodes are string leaf-lists.
+totally; `keyOrder_of_stringLL` discharges it for schemas whose system-ordered nodes are string leaf-lists.  LIMITATION: it
+cannot hold for a schema with a keyed list (`keyOrder_no_keyed_list`), so the theorems that assume it cover leaves, containers
+and system-ordered leaf-lists only; the ones that do not (`diff_exact`, `reverse_involutive_diff`, `merge_cancel*` in
+Props/C13Merge.lean, `Diff.apply_congr`) cover keyed lists as well.
+
+Every computed diff is exact: `diff_exact` (for the well-formed trees `wfForest` of C06 — `goodT` alone is not enough:
+`diff_exact_goodT_fails`); with it `reverse_apply_diff`, `reverse_apply` (the law as the check evaluates it, with the literal
+second tree) and `reverse_involutive_diff` hold without a hypothesis on the diff.
 -/
 namespace LyModel.Props.C13
 open LyModel LyModel.Tree LyModel.Diff
@@ -21,7 +28,8 @@ open LyModel LyModel.Tree LyModel.Diff
 /-- `reverse_apply`, the true part: for trees of leaves, containers, choices, system-ordered lists and leaf-lists at any depth
 (`goodT`), the reversed diff of an exact diff `D` applied to the tree `D` leads to gives the original tree back — structure,
 values and the default flags of all leaves / leaf-list instances (`dataEqL true`, the comparison with `LYD_COMPARE_DEFAULTS`).
-No bound on depth, width or the number of changes. -/
+No bound on depth, width or the number of changes.  (`KeyOrder S` excludes schemas with keyed lists: `keyOrder_no_keyed_list`;
+the hypothesis `hD` holds for every computed diff: `diff_exact`.) -/
 theorem reverse_apply_partial {S : Schema} {fx : Fixes} (K : KeyOrder S) {A D : List DNode} (hA : goodT S A = true)
     (hD : exactDiff S A D = true) :
     ∃ B R A', apply S A D fx = .ok B ∧ reverse S D = .ok R ∧ apply S B R fx = .ok A' ∧ dataEqL true A' A = true := by
@@ -195,6 +203,17 @@ def lnS : Schema := { modName := "t4lnw", nodes := [
 def lnT (n : DNode) : List DNode := [ .inner 0 {} [] [ tm 1 "0", n ] ]
 def lnDflt : DNode := .inner 2 { dflt := true } [] [ tm 3 "dv" true ]
 def lnV : DNode := .inner 2 {} [] [ tm 3 "v" ]
+
+/-- `diff_exact`, `reverse_involutive_diff` on a keyed list (not covered by `KeyOrder`): nested value change with a default node -/
+example : wfForest lnS (lnT lnV) = true ∧ wfForest lnS (lnT lnDflt) = true ∧ (diff lnS true (lnT lnV) (lnT lnDflt)).length = 1 := by
+  decide +kernel
+example : exactDiff lnS (lnT lnV) (diff lnS true (lnT lnV) (lnT lnDflt)) = true :=
+  diff_exact lnS _ _ (by decide +kernel) (by decide +kernel)
+example : ∃ R, reverse lnS (diff lnS true (lnT lnV) (lnT lnDflt)) = .ok R ∧
+    reverse lnS R = .ok (revDupL (diff lnS true (lnT lnV) (lnT lnDflt))) :=
+  reverse_involutive_diff (by decide +kernel) (by decide +kernel)
+example : ¬ KeyOrder lnS := fun K => keyOrder_no_keyed_list K (s := 0) (k := 1) (by decide +kernel) (by decide +kernel)
+  (by decide +kernel)
 
 theorem merge_apply_nodefaults_fails :
     ¬ ∀ (S : Schema) (A B C : List DNode), canonB S A = true → canonB S B = true → canonB S C = true →
